@@ -575,4 +575,48 @@ class C11c(Obligation):
             ctx.check(out.value == kinds[which], 'the kind read from the tree is the kind the definition gives the parameter')
 
 
-OBLIGATIONS = [C11a, C11b, C11c, C11d, C11e, C11f]
+import inspect  # noqa: E402
+
+from jedi import parser_utils as jpu  # noqa: E402
+
+
+class C11g(Obligation):
+    id = 'C11.g'
+    title = 'raw docstring == inspect.cleandoc of the literal (what inspect.getdoc returns), for one-line and multi-line docstrings alike'
+    pattern = 'P1 (clean_scope_docstring vs the interpreted inspect.cleandoc on the same symbolic text)'
+    interpret_modules = ('jedi', 'inspect')
+    loop_bound = 64
+    assumptions = (
+        'the docstring consists of K<=3 lines, each a symbolic string without newline and tab of length<=3; '
+        'the literal prefix is one of "", r, u, f, Rb-free spellings; ast.literal_eval is CPython\'s and returns the text '
+        'for non-f literals (stub); an f-string is not a docstring (expected: empty)',
+    )
+    z3_timeout = 8.0
+
+    def configs(self, tier):
+        return [dict(K=k) for k in ((1, 2) if tier == 'quick' else (1, 2, 3))]
+
+    def scenario(self, ctx, cfg):
+        lines = [ctx.str('line%d' % i, maxlen=cfg.get('L', 3), exclude='\n\t') for i in range(cfg['K'])]
+        doc = lines[0]
+        for l in lines[1:]:
+            doc = doc + '\n' + l
+        prefix = ctx.oneof('literal_prefix', ['"""', 'r"""', "u'", 'f"""', 'Rf"""', "'''"])
+        source = prefix + 'DOC' + '"""'
+        ctx.patch(jpu, 'literal_eval', lambda value: doc if value is source else None)
+        scope = Obj(get_doc_node=lambda: Obj(value=source))
+        ctx.force(jpu.clean_scope_docstring, jpu.safe_literal_eval, inspect.cleandoc)
+        out = ctx.call(jpu.clean_scope_docstring, scope)
+        ctx.check(out.exc is None, 'never raises')
+        if out.exc is not None:
+            return
+        if 'f' in prefix.lower():
+            ctx.check(out.value == '', 'an f-string is not a docstring')
+            return
+        ref = ctx.run(inspect.cleandoc, doc)
+        ctx.check(out.value == ref, 'the docstring is cleaned exactly as inspect.cleandoc does')
+        nodoc = ctx.run(jpu.clean_scope_docstring, Obj(get_doc_node=lambda: None))
+        ctx.check(nodoc == '', 'no docstring => empty string')
+
+
+OBLIGATIONS = [C11a, C11b, C11c, C11d, C11e, C11f, C11g]
